@@ -57,6 +57,7 @@ type dlCase struct {
 	HasPart bool
 	Final   []byte   // pre-existing final file (nil = absent)
 	HasFinal bool
+	FinalDir bool // something that is not a file sits at the final path (an empty directory): the rename cannot succeed
 	Script  []dlResp
 	Attempts int
 }
@@ -73,6 +74,9 @@ func (c dlCase) encode() string {
 	if c.HasFinal {
 		fin = hx(c.Final)
 	}
+	if c.FinalDir {
+		fin = "dir"
+	}
 	return fmt.Sprintf("C02 case %s %s %s %d %s", hx(c.Content), part, fin, c.Attempts, strings.Join(ss, ","))
 }
 func decodeDlCase(s string) (dlCase, bool) {
@@ -84,7 +88,9 @@ func decodeDlCase(s string) (dlCase, bool) {
 	if f[3] != "none" {
 		c.HasPart, c.Part = true, unhx(f[3])
 	}
-	if f[4] != "none" {
+	if f[4] == "dir" {
+		c.FinalDir = true
+	} else if f[4] != "none" {
 		c.HasFinal, c.Final = true, unhx(f[4])
 	}
 	c.Attempts, _ = strconv.Atoi(f[5])
@@ -272,6 +278,8 @@ func c02(c *Ctx) {
 			dc.HasFinal, dc.Final = true, bad
 		case 2: // … or some other object's bytes, same or different length
 			dc.HasFinal, dc.Final = true, r.Bytes(Pick(r, []int{size, size, size + 1, max(size-1, 1)}))
+		case 3: // … or a directory (left by a crashed tool, a confused script): renaming onto it fails
+			dc.FinalDir = true
 		}
 		dc.Attempts = 1 + r.Intn(4)
 		nresp := 1 + r.Intn(6)
@@ -339,8 +347,12 @@ func c02(c *Ctx) {
 			// the empty object's "path" is os.DevNull: never touch anything outside the scratch repository
 			continue
 		}
-		os.Remove(final)
+		os.RemoveAll(final)
 		os.Remove(part)
+		if dc.FinalDir {
+			os.MkdirAll(final, 0o755)
+			c.R.Count("final.is-a-directory")
+		}
 		if dc.HasPart {
 			os.WriteFile(part, dc.Part, 0o644)
 		}
@@ -430,9 +442,11 @@ func c02(c *Ctx) {
 			if len(ss) > 0 {
 				sc = strings.Join(ss, ",")
 			}
-			mlines = append(mlines, fmt.Sprintf("C02 dl %s %d %s %s %s", oid, len(dc.Content), optHex(prePart, hadPart), optHex(preFinal, hadFinal), sc))
-			mimpl = append(mimpl, fmt.Sprintf("%s part=%s final=%s", outcome, shaOpt(postPart, hasPart), shaOpt(postFinal, hasFinal)))
-			mcase = append(mcase, enc)
+			if !dc.FinalDir { // the model's file system has files only
+				mlines = append(mlines, fmt.Sprintf("C02 dl %s %d %s %s %s", oid, len(dc.Content), optHex(prePart, hadPart), optHex(preFinal, hadFinal), sc))
+				mimpl = append(mimpl, fmt.Sprintf("%s part=%s final=%s", outcome, shaOpt(postPart, hasPart), shaOpt(postFinal, hasFinal)))
+				mcase = append(mcase, enc)
+			}
 			if res.Error == nil {
 				break
 			}
